@@ -227,6 +227,17 @@ def gen_cases(seed, tier):
         "new 0 vec;set 0 C:0 16777217;fmass 0;set 0 H:0 33554433;fmass 0;fromkv 1 vec iterES O:18=16777219,C:13=20000001;fmass 1;add 2 0 1 ref;fmass 2;muli 1 -1 own;fmass 1",
         "new 0 vec;set 0 H:0 50000001;fmass 0;iadd 0 H:0 -33222784;fmass 0;inc 0 C:12 16777217;fmass 0",
     ]
+    corpus += [
+        # results exactly ON the ends of the count's type (i32::MIN has no positive twin): products, sums and differences that
+        # are representable must be exact (one light key per composition: the masses stay below 2^53 micro-units and do not
+        # depend on a summation order)
+        "new 0 vec;set 0 H:0 -1073741824;muli 0 2 own;get 0 H:0;fmass 0;new 1 vec;set 1 H:0 1073741823;muli 1 2 mut;get 1 H:0;iadd 1 H:0 1;get 1 H:0",
+        "new 0 vec;set 0 H:0 1;mul 1 0 -2147483648 ref;get 1 H:0;mul 2 0 2147483647 val;get 2 H:0;fmass 1;fmass 2",
+        "new 0 vec;set 0 H:0 -2147483648;muli 0 1 mut;get 0 H:0;mul 1 0 1 ref;get 1 H:0;set 0 H:0 2147483647;neg 2 0 ref;get 2 H:0;muli 0 -1 own;get 0 H:0",
+        "new 0 vec;new 1 vec;set 0 H:0 -1073741824;set 1 H:0 -1073741824;add 2 0 1 ref;get 2 H:0;set 1 H:0 1073741824;subi 0 1 own;get 0 H:0;"
+        "inc 0 H:0 2147483647;get 0 H:0;inc 0 H:0 2147483647;get 0 H:0;iadd 0 H:0 1;get 0 H:0;fmass 0",
+        "new 0 vec;set 0 H:0 -715827882;muli 0 3 own;get 0 H:0;set 0 H:0 -536870912;muli 0 4 mut;get 0 H:0;set 0 H:0 65536;mul 1 0 -32768 ref;get 1 H:0",
+    ]
     for i, c in enumerate(corpus):
         ops = c.split(";")
         cases.append(dict(kind="corpus", ops=ops, group=f"corpus{i}", nregs=3))
